@@ -79,6 +79,9 @@ func runCase(comp string, k *toks, o *out) {
 }
 
 func TestVerifDriver(t *testing.T) {
+	if os.Getenv("VERIF_LOG") != "" {
+		initLog("", "debug", "text", 50, 1)
+	}
 	in := os.Getenv("VERIF_CASES")
 	outp := os.Getenv("VERIF_OUT")
 	if in == "" || outp == "" {
